@@ -73,11 +73,20 @@ def d_package(ann, extra_decls=()):
     if ann.get("imm"):
         ls.append("\t// @immutable")
     if ann.get("ctors"):
-        ls.append("\t// @constructor " + ann.get("ctor_spelling", ", ".join(ann["ctors"])))
+        for part in ann.get("ctor_spelling", ", ".join(ann["ctors"])).split("\n"):
+            ls.append("\t// @constructor " + part)
     ls += ["\tT struct {", "\t\tX  int", "\t\tXs []int", "\t\tMp map[string]int"]
     if ann.get("mut"):
         ls.append("\t\t// @mutable")
     ls += ["\t\tM int", "\t}", "\tTG struct{ X int }", ")", ""]
+    # T3 is declared after T and names the same function NewT as (one of) its constructor(s): NewT constructs both
+    if ann.get("imm") or ann.get("ctors"):
+        ls.append("// T3 is built by NewT as well.")
+        if ann.get("imm"):
+            ls.append("// @immutable")
+        if ann.get("ctors"):
+            ls.append("// @constructor NewT")
+        ls += ["type T3 struct{ X int }", ""]
     if ann.get("imm"):
         ls.append("// @immutable")
     ls += ["type C int", "", "// T2 is a second annotated type with its own constructor."]
@@ -310,7 +319,8 @@ def build_generic(sc, sid, container_fn, d_extra=()):
 
 # ------------------------------------------------------------------ Constructor.tla
 CTOR_SPELL_1 = {1: "NewT", 2: "NewT trailing words"}
-CTOR_SPELL_2 = {1: "NewT, MakeT", 2: "NewT,MakeT", 3: "NewT ,MakeT", 4: "NewT, MakeT and trailing words", 5: "NewT,  MakeT"}
+CTOR_SPELL_2 = {1: "NewT, MakeT", 2: "NewT,MakeT", 3: "NewT ,MakeT", 4: "NewT, MakeT and trailing words", 5: "NewT,  MakeT",
+                6: "NewT\nMakeT"}    # 6: two separate @constructor lines
 
 CTOR_STMT = {
     "lit": ("_ = %(t)s{X: %(n)d}", "var g%(n)d = %(t)s{X: %(n)d}"),
